@@ -1,5 +1,6 @@
 """C14 — Version objects accept exactly valid version strings and decompose losslessly
 (debian_support.BaseVersion via Version)."""
+import copy
 import itertools
 
 from harness.core import cq_Z, cq_list, cq_opt, cq_str, err_kind
@@ -17,7 +18,10 @@ RULE = ("construction: every string of length <= 2 (quick) / <= 4 (thorough) ove
         "single-edit mutants of them with foreign characters, a trailing LF, empty parts, stray colons and hyphens; "
         "assignment sequences (35%): a valid initial version and 1-6 assignments to epoch / upstream_version / "
         "debian_revision / debian_version / full_version / an ordinary attribute, with valid values, invalid values "
-        "('', 'a b', '1:2', '1-2', '1\\n', non-ASCII digit), None and ints; the regex leaf on its own (15%) against "
+        "('', 'a b', '1:2', '1-2', '1\\n', non-ASCII digit), None and ints, 30% of the sequences repeating one of "
+        "their assignments (a refused assignment must be refused again); 25% of the random constructions are "
+        "attempted twice in a row (the observation is the last attempt); every case starts from pristine "
+        "class/module-level state so that its replay in a fresh interpreter observes the same; the regex leaf on its own (15%) against "
         "the live BaseVersion.re_valid_version.  non-trivial = a construction from a non-empty string, or a sequence "
         "with at least one assignment")
 TRUSTED = ["model coq/Version/Parse.v is a hand transcription of BaseVersion.__init__/_set_full_version/__setattr__/"
@@ -27,7 +31,10 @@ TRUSTED = ["model coq/Version/Parse.v is a hand transcription of BaseVersion.__i
            "the skeleton of the pattern is checked by harness/props/version_common.py, not translated"]
 ASSUMPTIONS = ["apt_pkg is absent: Version = NativeVersion (BaseVersion behaviour is the same either way)",
                "assigned values are None, str or int (str(value) of other types is not modelled)",
-               "an empty debian_revision means 'no revision' (the code tests truthiness; the spec reads it the same way)"]
+               "an empty debian_revision means 'no revision' (the code tests truthiness; the spec reads it the same way)",
+               "before each case the dict/list/set attributes of debian_support and of the classes in Version.__mro__ are "
+               "restored to their import-time contents, attributes created since are removed and lru caches cleared "
+               "(state kept anywhere else would leak between cases)"]
 
 ALPH = ["0", "9", "a", ".", "+", "~", "-", ":", "_", " ", "\n", "٣"]
 FOREIGN = ["_", " ", "\n", "٣", "é", "۴", "/", "*", "\t", "\r", "\x00", "="]
@@ -113,7 +120,10 @@ def generate(rng, n, tier):
     for _ in range(max(0, n - k)):
         r = rng.random()
         if r < 0.5:
-            yield {"kind": "new", "v": _enc(_rand_string(rng))}
+            c = {"kind": "new", "v": _enc(_rand_string(rng))}
+            if rng.random() < 0.25:
+                c["times"] = 2
+            yield c
         elif r < 0.85:
             init = _c03.rand_version(rng)
             if rng.random() < 0.05:
@@ -122,6 +132,10 @@ def generate(rng, n, tier):
             for _ in range(rng.randint(1, 6)):
                 name = rng.choice(NAMES + ["upstream_version", "debian_revision", "epoch", "foo"])
                 ops.append([name, _enc(_rand_value(rng, name))])
+            if rng.random() < 0.3:
+                # the same assignment once more: directly after itself, or at the end
+                i = rng.randrange(len(ops))
+                ops.insert(i + 1 if rng.random() < 0.6 else len(ops), list(ops[i]))
             yield {"kind": "seq", "init": init, "ops": ops}
         else:
             yield {"kind": "leaf", "s": _rand_string(rng)}
@@ -136,15 +150,71 @@ def _snap(v):
             "rev": v.debian_revision, "debver": v.debian_version}
 
 
+_PRISTINE = {}
+
+
+def _holders(ds):
+    return [ds] + [c for c in ds.Version.__mro__ if c is not object]
+
+
+def _unwrap(val):
+    return getattr(val, "__func__", val)
+
+
+def _reset_state(ds):
+    """Every case starts from the class/module-level state of a fresh import, so that a replay file
+    reproduces its observation in a new interpreter: containers are restored in place, attributes that
+    appeared since the import are removed, lru caches are cleared."""
+    snap = _PRISTINE.get("snap")
+    if _PRISTINE.get("mod") is not ds:
+        snap = []
+        for h in _holders(ds):
+            names = set(vars(h))
+            conts = [(n, v, copy.deepcopy(v)) for n, v in list(vars(h).items())
+                     if not (n.startswith("__") and n.endswith("__")) and isinstance(v, (dict, list, set))]
+            snap.append((h, names, conts))
+        _PRISTINE["mod"] = ds
+        _PRISTINE["snap"] = snap
+        return
+    for h, names, conts in snap:
+        for n in [n for n in vars(h) if n not in names]:
+            try:
+                delattr(h, n)
+            except Exception:
+                pass
+        for n, obj, pristine in conts:
+            if obj != pristine:
+                obj.clear()
+                if isinstance(obj, list):
+                    obj.extend(copy.deepcopy(pristine))
+                else:
+                    obj.update(copy.deepcopy(pristine))
+            if vars(h).get(n) is not obj:
+                try:
+                    setattr(h, n, obj)
+                except Exception:
+                    pass
+        for v in list(vars(h).values()):
+            cc = getattr(_unwrap(v), "cache_clear", None)
+            if callable(cc):
+                try:
+                    cc()
+                except Exception:
+                    pass
+
+
 def run_impl(case):
     from debian import debian_support as ds
+    _reset_state(ds)
     k = case["kind"]
     if k == "new":
-        try:
-            v = ds.Version(_dec(case["v"]))
-        except Exception as e:
-            return {"err": err_kind(e)}
-        return {"ok": _snap(v)}
+        out = None
+        for _ in range(max(1, int(case.get("times", 1)))):
+            try:
+                out = {"ok": _snap(ds.Version(_dec(case["v"])))}
+            except Exception as e:
+                out = {"err": err_kind(e)}
+        return out
     if k == "seq":
         try:
             v = ds.Version(case["init"])
@@ -223,7 +293,8 @@ def _sclass(s):
 def classify(case, obs):
     k = case["kind"]
     if k == "new":
-        return "new/%s/%s" % (_sclass(_dec(case["v"])), "ok" if "ok" in obs else obs["err"])
+        return "new%s/%s/%s" % ("x2" if case.get("times", 1) > 1 else "", _sclass(_dec(case["v"])),
+                                "ok" if "ok" in obs else obs["err"])
     if k == "seq":
         if "err" in obs:
             return "seq/init-" + obs["err"]
@@ -241,12 +312,28 @@ def nontrivial(case, obs):
     return True
 
 
+def _cuts(s):
+    """s with a chunk removed: halves and quarters first, then single characters"""
+    n = len(s)
+    seen = set()
+    for size in (n // 2, n // 4, 2, 1):
+        if size < 1:
+            continue
+        for i in range(0, n - size + 1, max(1, size // 2) if size > 2 else 1):
+            t = s[:i] + s[i + size:]
+            if t not in seen:
+                seen.add(t)
+                yield t
+
+
 def shrink(case):
     k = case["kind"]
+    if k == "new" and case.get("times", 1) > 1:
+        yield {"kind": "new", "v": case["v"]}
     if k == "new" and "s" in case["v"]:
         s = case["v"]["s"]
-        for i in range(len(s)):
-            yield dict(case, v={"s": s[:i] + s[i + 1:]})
+        for u in _cuts(s):
+            yield dict(case, v={"s": u})
         for i in range(len(s)):
             if s[i] not in "1a":
                 yield dict(case, v={"s": s[:i] + "1" + s[i + 1:]})
@@ -255,17 +342,18 @@ def shrink(case):
         for i in range(len(ops)):
             yield dict(case, ops=ops[:i] + ops[i + 1:])
         s = case["init"]
-        for i in range(len(s)):
-            yield dict(case, init=s[:i] + s[i + 1:])
+        for u in _cuts(s):
+            yield dict(case, init=u)
         for i, (nm, v) in enumerate(ops):
             if "s" in v:
-                t = v["s"]
-                for j in range(len(t)):
-                    yield dict(case, ops=ops[:i] + [[nm, {"s": t[:j] + t[j + 1:]}]] + ops[i + 1:])
+                # the same cut in every assignment of the same value (keeps a repetition a repetition)
+                for u in _cuts(v["s"]):
+                    yield dict(case, ops=[[n2, {"s": u}] if (n2 == nm and v2 == v) else [n2, v2] for n2, v2 in ops])
+                for u in _cuts(v["s"]):
+                    yield dict(case, ops=ops[:i] + [[nm, {"s": u}]] + ops[i + 1:])
     if k == "leaf":
-        s = case["s"]
-        for i in range(len(s)):
-            yield dict(case, s=s[:i] + s[i + 1:])
+        for u in _cuts(case["s"]):
+            yield dict(case, s=u)
 
 
 def neighbours(case, rng):
@@ -284,7 +372,9 @@ def neighbours(case, rng):
 def describe(case, obs):
     k = case["kind"]
     if k == "new":
-        return {"call": "Version(v); then str(), full_version, epoch, upstream_version, debian_revision, debian_version",
+        return {"call": "Version(v)%s; then str(), full_version, epoch, upstream_version, debian_revision, debian_version"
+                        % (" attempted %d times in a row in one interpreter, the last attempt is what is observed"
+                           % case["times"] if case.get("times", 1) > 1 else ""),
                 "v": _dec(case["v"]), "observed": obs,
                 "specified": "constructs iff v is a valid version by the Policy grammar (coq/Version/ParseSpec.v "
                              "valid_spec); str() == v; components = cut at the first colon / last hyphen"}
